@@ -290,6 +290,19 @@ func c01G2() []*C01Case {
 		"match-block-body": func(w string) (string, string) {
 			return "{ match (1) { 1 => { print \"m\"\n" + w + "\nprint \"m2\" } }\nprint \"after\" }\nEND { print \"e\" }", ""
 		},
+		"while-condition": func(w string) (string, string) {
+			return "{ n = 0\nwhile (match (n++) { 0 => { " + strings.ReplaceAll(w, "\n", " ; ") + " }, x => 0 }) { print \"body\" }\nprint \"after\" }", ""
+		},
+		"for-header": func(w string) (string, string) {
+			blk := "match (1) { 1 => { " + strings.ReplaceAll(w, "\n", " ; ") + " } }"
+			return "{ for (i = " + blk + "; i < 1; i++) { print \"b1\" }\nfor (i = 0; i < 1 && " + blk + "; i++) { print \"b2\" }\nfor (i = 0; i < 1; i = i + 1 + " + blk + ") { print \"b3\" }\nprint \"after\" }", ""
+		},
+		"forin-iterable": func(w string) (string, string) {
+			return "{ for (x in match (1) { 1 => { " + strings.ReplaceAll(w, "\n", " ; ") + " }, y => [1] }) { print \"body\" }\nprint \"after\" }", ""
+		},
+		"method-argument": func(w string) (string, string) {
+			return "{ a = [1]\na.push(match (1) { 1 => { " + strings.ReplaceAll(w, "\n", " ; ") + " } })\nprint \"after\", a }", ""
+		},
 		"selector": func(w string) (string, string) { return "{ print }\nEND { print \"e\" }", "match (1) { 1 => { " + strings.ReplaceAll(w, "\n", " ; ") + " } }" },
 	}
 	inputs := []string{"", "[1,2]", "[1]\n{\"a\":2}"}
@@ -326,13 +339,16 @@ func c01Hostile() []string {
 		"BEGIN { a = [] ; a[0] = a ; print a ; print json(a) }", "BEGIN { o = {} ; o.o = o ; print o ; x = json(o) }", "{ $ = $ ; $.x = $ ; print }", "BEGIN { next }", "END { next }",
 		"BEGIN { x = /" + rep("(a*)*", 200) + "b/ ; print \"" + rep("a", 2000) + "\" ~ x }", "BEGIN { print 1 % 0.5, 0 % 0 }", "BEGIN { print 1e5 }", "BEGIN { print 1.2.3 }", "BEGIN { print 1..floor() }",
 		"\x00", "\xff", "BEGIN { print \"\xff\xfe\" }", "é", "BEGIN{$++}''~'('", "$ $ $", "BEGIN { f = printf ; f(\"x\") }", "BEGIN { printf(printf) }", "BEGIN { json(json) }", "BEGIN { x = num ; print x(\"1\") }",
+		"BEGIN { o = {} ; o.pluck(o = 1) }", "BEGIN { a = [1] ; a.push(a = 5) ; a.pop(a = \"s\") ; print a }", "BEGIN { s = \"x\" ; s.split(s = 1) ; n = 2.5 ; n.floor(n = []) }",
+		"BEGIN { o = {a: 1} ; print o.pluck(o = null, \"a\"), o.length(o = 3) }", "BEGIN { a = [3,1] ; print a.sort(a = 0), a.contains(a = {}) }",
+		"BEGIN { while (match (1) { 1 => { break } }) {} }", "BEGIN { for (i = 0; match (i) { x => { continue } }; i++) {} }",
 		"BEGIN { \"abc\".split(\"\").sort().push(1).pop().floor().round() }", "BEGIN { [1,2,3].sort(1,2).length(5) }", "BEGIN { {}.pluck() ; {a:1}.pluck(null) }", "BEGIN { for (k, v in \"\xff\xfe\") print k, v }",
 	}
 }
 
 func TestC01(t *testing.T) {
 	rec := start(t, "C01", "exploration",
-		"G1: programs from seven structured generators, rendered to tokens and hit by 0-3 mutations (delete / duplicate / swap a token, replace a token by a keyword, splice a control keyword as a statement at any statement boundary regardless of context, insert an arbitrary byte or punctuation, truncate), with 0-2 selectors from a pool that includes match blocks executing exit / next / print, and inputs that are the generator's own document or hostile streams (empty, whitespace, truncated, garbage, JSONL, stray brackets, huge numbers, invalid UTF-8). G2 (complete): {next, exit, break, continue, return, return 5} x {BEGIN, END, BEGINFILE, ENDFILE, pattern body, pattern expression via a function, function body, match expression body via a function, match block body, selector via a match block} x {bare, inside while / for / for-in / if} x {no input value, two values, two documents}, each also through the binary with and without -o -. G3: arbitrary byte strings, byte edits of G1 renderings, and hostile constants (nests of ( [ { ! - match to depth 20000, runaway recursion and doubling loops under the cost budget, limits, cyclic values, pathological regexes). Oracle: the error returned by lang.EvalProgram is nil, SyntaxError, RuntimeError or JsonError; nothing is recovered by recover(); the process survives (in-flight file protocol); every error satisfies the C12 line invariant; sampled cases through the binary: exit status 0 or 1, stderr non-empty iff 1, no panic / fatal error / signal. A run stopped by the cost budget (200k units, verif hook) is inconclusive and counted. Non-trivial: the program parsed and evaluated something, or failed to parse beyond its first token, or is a G2 case. distinct = distinct (program, selectors, input).")
+		"G1: programs from seven structured generators, rendered to tokens and hit by 0-3 mutations (delete / duplicate / swap a token, replace a token by a keyword, splice a control keyword as a statement at any statement boundary regardless of context, insert an arbitrary byte or punctuation, truncate), with 0-2 selectors from a pool that includes match blocks executing exit / next / print, and inputs that are the generator's own document or hostile streams (empty, whitespace, truncated, garbage, JSONL, stray brackets, huge numbers, invalid UTF-8). G2 (complete): {next, exit, break, continue, return, return 5} x {BEGIN, END, BEGINFILE, ENDFILE, pattern body, pattern expression via a function, function body, match expression body via a function, match block body, a match block in a while condition / in each clause of a for header / in a for-in iterable / in a method argument, selector via a match block} x {bare, inside while / for / for-in / if} x {no input value, two values, two documents}, each also through the binary with and without -o -. G3: arbitrary byte strings, byte edits of G1 renderings, and hostile constants (nests of ( [ { ! - match to depth 20000, runaway recursion and doubling loops under the cost budget, limits, cyclic values, pathological regexes). Oracle: the error returned by lang.EvalProgram is nil, SyntaxError, RuntimeError or JsonError; nothing is recovered by recover(); the process survives (in-flight file protocol); every error satisfies the C12 line invariant; sampled cases through the binary: exit status 0 or 1, stderr non-empty iff 1, no panic / fatal error / signal. A run stopped by the cost budget (200k units, verif hook) is inconclusive and counted. Non-trivial: the program parsed and evaluated something, or failed to parse beyond its first token, or is a G2 case. distinct = distinct (program, selectors, input).")
 	defer rec.Finish()
 	rec.Assume("the cost-budget hook (build tag verif) only ever stops a run early; it adds no behaviour")
 	rec.Replayer("outcome", func(raw json.RawMessage) error {
@@ -389,7 +405,7 @@ func TestC01(t *testing.T) {
 		}
 	}
 
-	check(rec, "outcome-structured", scale(16000, 800000), func(rt *rapid.T) {
+	check(rec, "outcome-structured", scale(16000, 1600000), func(rt *rapid.T) {
 		c, labels := genC01G1(rt)
 		c.CLI = rapid.IntRange(0, 79).Draw(rt, "cli") == 0
 		msg, class := c01Check(c)
@@ -400,7 +416,7 @@ func TestC01(t *testing.T) {
 		}
 	})
 
-	check(rec, "outcome-bytes", scale(6000, 400000), func(rt *rapid.T) {
+	check(rec, "outcome-bytes", scale(6000, 800000), func(rt *rapid.T) {
 		var prog string
 		switch rapid.IntRange(0, 2).Draw(rt, "bytekind") {
 		case 0:
